@@ -94,10 +94,11 @@ Fixpoint get_buffer_loop (els : list (ie * value)) (buf : list byte) (idx : nat)
       | OutOfFuel => OutOfFuel
       end
   end.
+(* (since the repair "data record of length zero: encode its elements once" a record of length 0
+   is encoded like any other, into an empty buffer; before it, the nil buffer counted as
+   already encoded: Record.get_buffer_g with its first flag off) *)
 Definition get_buffer (els : list (ie * value)) : outcome (list byte * nat) :=
-  let n := N.to_nat (record_len els) in
-  if Nat.eqb n 0 then Ok ([], 0%nat)         (* len(d.buffer) == d.len: the nil buffer is returned *)
-  else get_buffer_loop els (zeros n) 0 0.
+  get_buffer_loop els (zeros (N.to_nat (record_len els))) 0 0.
 
 (* ---- specification-level encoding ---- *)
 Definition enc_var (v : list byte) : option (list byte) :=
